@@ -26,6 +26,8 @@ R14.e  ``Schedule.to_dict`` emits each machine's job ids in list order: no
 R14.g  no function of these modules modifies the object of a mutable default
        argument (directly, through a local alias, or with ``+=``): the result
        of a call must not depend on earlier calls.
+R14.i  integer-valued views of the instance (job durations, loads, maxima ...)
+       are not computed from its float32, NaN-padded ``*_array`` views.
 R14.h  no for-loop variable of these modules is read after its loop (a statement
        left one indentation level too shallow sees only the last element).
 """
@@ -85,8 +87,42 @@ def _unwrap(o):
     return o
 
 
+def _integer_views_not_from_float_arrays(ctx):
+    """R14.i - the padded ``*_array`` views are float32 (24-bit mantissa) and
+    NaN-padded; an integer-valued view (job durations, total duration, loads,
+    maxima, counts) computed *from* them is rounded above 2**24 and no longer
+    equals its definition.  No property of the instance other than the array
+    views themselves reads an array view."""
+    chk, repo = ctx.chk, ctx.repo
+    chk.rule("R14.i", "integer-valued views of the instance are not derived from its float32 NaN-padded *_array views")
+    inst = repo.find_class("JobShopInstance")
+    n = 0
+    bad = False
+    for name, m in sorted(inst.methods.items()):
+        if name.endswith("_array") or name.startswith("__") or not m.params:
+            continue
+        n += 1
+        me = m.params[0]
+        for x in own_nodes(m.node):
+            if isinstance(x, ast.Attribute) and isinstance(x.value, ast.Name) and x.value.id == me and x.attr.endswith("_array") and isinstance(x.ctx, ast.Load):
+                pt = inst.methods.get(x.attr)
+                if pt is None:
+                    continue
+                bad = True
+                chk.violation(
+                    "R14.i", m, x,
+                    f"`{name}` is computed from `self.{x.attr}`, a float32 (NaN-padded) view: sums and values above 2**24 are rounded, "
+                    "so the integer view no longer equals its definition for long durations",
+                    loc=m.loc(x),
+                )
+                break
+    if not bad:
+        chk.ok("R14.i", inst.qualname, "", f"{n} non-array members, none reads a float32 array view")
+
+
 def run(ctx):
     chk, repo = ctx.chk, ctx.repo
+    ctx.attempt(_integer_views_not_from_float_arrays, ctx)
     from .common import check_loop_variable_leaks
 
     check_loop_variable_leaks(ctx, "R14.h", ("job_shop_lib._schedule", "job_shop_lib._job_shop_instance", "job_shop_lib._operation", "job_shop_lib._scheduled_operation", "job_shop_lib.benchmarking"), "the data-structure / serialisation")
@@ -189,6 +225,11 @@ def run(ctx):
                         continue
                     if isinstance(tgt.value, ast.Name) and ctx.res._is_self(fi, tgt.value) and tgt.attr in ("__dict__",):
                         continue
+                    # an object the function has just created itself (a copy being
+                    # filled in) is nobody else's yet
+                    origins = ctx.flow.origins(fi, tgt.value, rc)
+                    if origins and all(o[0] in ("fresh", "freshattr", "elemfresh") for o in origins):
+                        continue
                     chk.violation(
                         "R14.a", fi, ev.node,
                         f"`{d.get('text')}` stores to attribute `{tgt.attr}` of the {kind} it was given: the caller's "
@@ -272,11 +313,11 @@ def run(ctx):
         raise AnalysisError("positive control failed: set_operation_attributes' stores not recognised as writes to operations")
 
     # ---------------------------------------------------------------- R14.b
-    _keys(ctx, inst)
+    ctx.attempt(_keys, ctx, inst)
     # ---------------------------------------------------------------- R14.c
-    _no_hang(ctx)
+    ctx.attempt(_no_hang, ctx)
     # ---------------------------------------------------------------- R14.d
-    _numbering(ctx, soa)
+    ctx.attempt(_numbering, ctx, soa)
 
 
 def _dict_returned(fi):
